@@ -486,18 +486,11 @@ func init() {
 		// can leave the iteration (continue / break / return / goto, conditional or not). What the conditions
 		// say is not pinned; what matters is WHERE an iteration can end before route.SetTable.
 		if wb := x.funcDecl(".", "", "watchBackend"); wb != nil {
-			var loop *ast.ForStmt
-			ast.Inspect(wb.Body, func(n ast.Node) bool {
-				if f, ok := n.(*ast.ForStmt); ok && len(x.calls(f.Body, "route.NewTable")) > 0 {
-					loop = f // innermost loop with the call
-				}
-				return true
-			})
-			if loop == nil {
-				x.fail("main.watchBackend: no loop that calls route.NewTable")
-			} else {
+			// events of a loop body, unexported helpers of package main followed (the update stage may live in a
+			// helper: archived refactoring h6); a `return` inside a helper counts as a way out of the iteration
+			eventsOf := func(body *ast.BlockStmt) []string {
 				var ev []string
-				ast.Inspect(loop.Body, func(n ast.Node) bool {
+				x.WalkInlined(".", &ast.FuncDecl{Name: ast.NewIdent("watchBackend$loop"), Body: body}, func(n ast.Node) bool {
 					switch v := n.(type) {
 					case *ast.FuncLit:
 						return false
@@ -513,8 +506,40 @@ func init() {
 					}
 					return true
 				})
-				x.defStrList("watchLoopEvents", ev)
+				return ev
 			}
+			var ev []string
+			ast.Inspect(wb.Body, func(n ast.Node) bool {
+				if f, ok := n.(*ast.ForStmt); ok {
+					e := eventsOf(f.Body)
+					for _, s := range e {
+						if s == "call route.NewTable" {
+							ev = e // innermost loop that reaches the call
+							break
+						}
+					}
+				}
+				return true
+			})
+			if ev == nil {
+				x.fail("main.watchBackend: no loop that reaches route.NewTable")
+			}
+			// what matters: from the alias reader to the installation of the table
+			from, to := -1, -1
+			for i, s := range ev {
+				if s == "call route.ParseAliases" && from < 0 {
+					from = i
+				}
+				if s == "call route.SetTable" {
+					to = i
+				}
+			}
+			stage := []string{}
+			if from >= 0 && to >= from {
+				stage = ev[from : to+1]
+			}
+			x.defStrList("watchLoopEvents", ev)
+			x.defStrList("watchUpdateStage", stage)
 		}
 		return nil
 	})
